@@ -282,6 +282,12 @@ class Program:
                             # a nested function of fn itself is part of fn
                             if self.functions[new[nm]].parent is fn:
                                 continue
+                            # `d.pop(k)`, `G.copy()`, `s.add(x)` on some object are the container's / graph's own methods, not
+                            # a new repo method that happens to share the name (only self.m() / cls.m() / Class.m() / m() count)
+                            from gcmstatic.normalize import _library_method_names
+                            if isinstance(n.func, ast.Attribute) and (nm in _CONTAINER_METHODS or nm in _library_method_names()) and not (
+                                    isinstance(n.func.value, ast.Name) and (n.func.value.id in ("self", "cls") or n.func.value.id in self.classes)):
+                                continue
                             out.append(nm)
         cache[fn.qualname] = sorted(set(out))
         return cache[fn.qualname]
@@ -340,6 +346,9 @@ class Program:
 
     def note(self, mi: ModuleInfo) -> None:
         self.consulted[mi.relpath] = mi.digest
+
+
+_CONTAINER_METHODS = {m for ty in (dict, list, set, tuple, str, frozenset) for m in dir(ty) if not m.startswith("__")}
 
 
 # ----------------------------------------------------------------------------- how much of a function is still the pinned one
